@@ -5,6 +5,8 @@ rational RN oracle of vf.exact; backend monitor drives vectorize_with_mpmath wit
 {unspecified, False, True} x extra-precision settings on functions whose exact / Ziv-certified value is known.
 """
 from fractions import Fraction as F
+import warnings
+import math
 import numpy
 import mpmath
 
@@ -80,13 +82,38 @@ def install(rec, utils):
             return
         q = mpf_value(m)
         cls = result_class(q, dt)
-        if fl and cls in ("zero", "subnormal"):
-            raise contracts.Skip("flush-subnormal-range")
-        if fl and cls == "normal" and abs(q) < exact.fmt(dt).min_normal:
-            raise contracts.Skip("flush-subnormal-range")
+        if fl:
+            # flushing explicitly requested: a value that, rounded to the precision of the type, is still below the smallest normal becomes a signed
+            # zero; everything else converts as usual
+            f_ = exact.fmt(dt)
+            if q != 0 and abs(round_to_precision(q, f_.p)) < f_.min_normal:
+                rec.count("flush-requested:judged")
+                ok = bool(r == 0) and bool(numpy.signbit(r)) == bool(q < 0)
+                if not ok:
+                    rec.violation("mpf2float-flush-requested", dict(dtype=numpy.dtype(dt).name, q=str(q) if len(str(q)) < 80 else f"{float(q)!r}~", got=r, expected="-0.0" if q < 0 else "0.0"))
+                return
         judge_mpf2float(rec, dt, q, r, "contract")
 
     contracts.attach(utils, "mpf2float", post, rec, site="utils.mpf2float")
+
+
+def round_to_precision(q, p):
+    """q (Fraction, non-zero) rounded to p significant bits, ties to even, unbounded exponent"""
+    from fractions import Fraction as F
+    import math
+
+    a = abs(q)
+    e = a.numerator.bit_length() - a.denominator.bit_length()
+    if F(2) ** e > a:
+        e -= 1
+    scale = F(2) ** (e - p + 1)
+    n = a / scale
+    fl_ = n.numerator // n.denominator
+    rem = n - fl_
+    if rem > F(1, 2) or (rem == F(1, 2) and fl_ % 2 == 1):
+        fl_ += 1
+    v = fl_ * scale
+    return v if q > 0 else -v
 
 
 def directed(rng, dt, n):
@@ -268,7 +295,12 @@ def task_backend(params, rec):
                         ok = exact.bits_of(r) == exact.bits_of(e)
                     if q != 0 and cls in ("subnormal", "zero"):
                         if flush is True:
-                            rec.count("backend:flush-requested-subnormal-skipped")
+                            # explicitly requested: a result below the smallest normal comes back as a signed zero
+                            rec.count("backend:flush-requested-judged")
+                            if abs(round_to_precision(q, f.p)) < f.min_normal:
+                                rr = numpy.asarray(r).reshape(-1)[0] if not isinstance(r, numpy.generic) else r
+                                if not (rr == 0 and bool(numpy.signbit(rr)) == bool(q < 0)):
+                                    rec.violation("backend-flush-requested-result", dict(dtype=params["dtype"], fn=fname, settings=st, flush=str(flush), form=form, x=x, got=r, expected="-0.0" if q < 0 else "0.0"))
                             continue
                         if cls == "zero":
                             ok = bool(r == 0)
@@ -287,7 +319,83 @@ def task_backend(params, rec):
     contracts.detach_all()
 
 
-TASKS = {"directed": task_directed, "backend": task_backend}
+def task_backend_complex(params, rec):
+    """complex results (mpc): each component is converted like a real result - correctly rounded once (no detour through a 53-bit Python complex for
+    complex64), subnormal components preserved unless flushing was requested, flushed to a signed zero when it was"""
+    from functional_algorithms import utils
+
+    install(rec, utils)
+    cdt = getattr(numpy, params["cdtype"])
+    dt = {numpy.complex64: numpy.float32, numpy.complex128: numpy.float64}[cdt]
+    f = exact.fmt(dt)
+    rng = gen.rng_for(params["seed"], 151, params["shard"], f.bits)
+    n = params["n"]
+    hv = gen.hostile_values(rng, dt, 2 * n)
+    so = rng.integers(-(1 << (f.p - 1)), (1 << (f.p - 1)) + 1, size=2 * n)
+    hv = numpy.where(rng.random(2 * n) < 0.35, exact.from_ordinal_arr(dt, so), hv).astype(dt)
+    hv = hv[numpy.isfinite(hv)]
+    funcs = {"identity": (lambda z: z, lambda x, y: (x, y)), "conjugate": (lambda z: z.conjugate(), lambda x, y: (x, -y)), "negate": (lambda z: -z, lambda x, y: (-x, -y)),
+             "square": (lambda z: z * z, lambda x, y: (x * x - y * y, 2 * x * y))}
+    half = (f.p + 1) // 2 + 1
+    for fname, (fn, exq) in funcs.items():
+        for flush in ("unspecified", False, True):
+            kw = dict(extra_prec_multiplier=20)
+            if flush != "unspecified":
+                kw["flush_subnormals"] = flush
+            vf = utils.vectorize_with_mpmath(fn, **kw)
+            for i in range(params["per"]):
+                if fname == "square":
+                    # x*x an exact tie at p bits (odd (p+1)-bit square of a short odd significand), y tiny: the real part lies just below the tie
+                    lo_, hi_ = int(math.isqrt(1 << f.p)) + 1, int(math.isqrt((1 << (f.p + 1)) - 1))
+                    nx = int(rng.integers(lo_, hi_)) | 1
+                    e_ = int(rng.integers(-20, 20))
+                    x = dt(numpy.ldexp(float(nx), e_)) * dt(rng.choice([-1, 1]))
+                    y = dt(numpy.ldexp(float(int(rng.integers(1, 1 << 8)) | 1), e_ - int(rng.integers(30, 60))))
+                    if rng.random() < 0.3:
+                        x, y = dt(hv[int(rng.integers(0, hv.size))]) , dt(hv[int(rng.integers(0, hv.size))])
+                        if not (2.0 ** -40 < abs(float(x)) < 2.0 ** 40 and 2.0 ** -40 < abs(float(y)) < 2.0 ** 40):
+                            continue
+                else:
+                    x, y = dt(hv[int(rng.integers(0, hv.size))]), dt(hv[int(rng.integers(0, hv.size))])
+                z = cdt(complex(float(x), float(y))) if dt is numpy.float64 else numpy.array([x, y], dtype=dt).view(cdt)[0]
+                rec.count("evaluations")
+                try:
+                    with warnings.catch_warnings():
+                        warnings.simplefilter("ignore")
+                        with numpy.errstate(all="ignore"):
+                            r = vf(z) if i % 2 == 0 else vf(numpy.array([z], dtype=cdt))[0]
+                except Exception as e:
+                    rec.violation("backend-complex-exception", dict(cdtype=params["cdtype"], fn=fname, flush=str(flush), z=[x, y], exc=f"{type(e).__name__}: {e}"[:200]))
+                    continue
+                r = numpy.asarray(r).reshape(-1)[0]
+                if r.dtype != numpy.dtype(cdt):
+                    rec.violation("backend-complex-dtype", dict(cdtype=params["cdtype"], fn=fname, got=str(r.dtype)))
+                    continue
+                qs = exq(exact.frac(x), exact.frac(y))
+                for comp, q, got in (("real", qs[0], dt(r.real)), ("imag", qs[1], dt(r.imag))):
+                    cls = result_class(q, dt) if q != 0 else "zero0"
+                    rec.count("backend-complex:judged")
+                    if q == 0:
+                        ok = bool(got == 0)
+                    elif abs(round_to_precision(q, f.p)) < f.min_normal:
+                        if flush is True:
+                            ok = bool(got == 0) and bool(numpy.signbit(got)) == bool(q < 0)
+                        elif exact.is_representable(q, dt):
+                            ok = exact.bits_of(got) == exact.bits_of(exact.RN(q, dt))
+                        else:
+                            continue
+                    elif cls == "overflow":
+                        continue
+                    else:
+                        ok = exact.bits_of(got) == exact.bits_of(exact.RN(q, dt))
+                    if not ok:
+                        rec.violation("backend-complex-component", dict(cdtype=params["cdtype"], fn=fname, flush=str(flush), component=comp, z=[x, y], got=got, expected=exact.RN(q, dt) if q != 0 else 0.0))
+                        break
+                rec.cls("backend-complex", params["cdtype"], fname, str(flush))
+    contracts.detach_all()
+
+
+TASKS = {"directed": task_directed, "backend": task_backend, "backend_complex": task_backend_complex}
 
 
 def plan(tier, seed):
@@ -299,6 +407,9 @@ def plan(tier, seed):
             t.append(("directed", dict(dtype=dtn, shard=s, n=n, seed=seed)))
         for s in range(nb):
             t.append(("backend", dict(dtype=dtn, shard=s, n=4000, per=per, seed=seed)))
+    for cdtn in ("complex64", "complex128"):
+        for s in range(nb):
+            t.append(("backend_complex", dict(cdtype=cdtn, shard=s, n=3000, per=60 if tier == "quick" else 600, seed=seed)))
     return t
 
 
